@@ -35,14 +35,14 @@ def reset_globals():
     jar = getattr(_handshake, "CookieJar", None)
     if jar is not None and hasattr(jar, "jar"):
         jar.jar = {}
-    _socket._default_timeout = None
-    _app.RECONNECT = 0
-    _logging._traceEnabled = False
+    websocket.setdefaulttimeout(None)
+    websocket.setReconnect(0)
+    websocket.enableTrace(False)
 
 
 def set_trace(on):
     """Trace logging on/off without the default stderr handler."""
-    _logging._traceEnabled = bool(on)
+    websocket.enableTrace(bool(on), handler=_null, level="DEBUG")  # the public switch; the NullHandler keeps stderr quiet
     lg = logging.getLogger("websocket")
     lg.propagate = False
     if on:
